@@ -142,7 +142,9 @@ def run(ctx):
                             sites = cg.callers_of(f.name)
                             return bool(sites) and all('@convert_list_to_bitmap' in Canon(P, g_).val(c_.ops[int(pm.group(1))]) for g_, c_ in sites)
                         return False
-                    if bit and is_list_bitmap(bit[2]) and found is None:
+                    # a loop may fill two lists (the survivors under a clear bit, the buffers to rebuild under a set bit):
+                    # the selection of survivors is the store under the clear bit
+                    if bit and is_list_bitmap(bit[2]) and (found is None or (found[1][0] != 'eq' and bit[0] == 'eq')):
                         found = (s, bit, F)
         inst = f'{fname}: selection loop'
         if not found:
@@ -182,9 +184,19 @@ def run(ctx):
                 fl = fields_in_path(steps)
                 if fl and fl[-1][0] == 'isa_l_descriptor':
                     fld = fl[-1]; held.add(strip_ptr_casts(f, i.ops[0])); break
+        if fld is None:
+            # the result may be parked first (a local handle array) and copied into the descriptor later: follow the value
+            A_, _s = derived_pointers(f, [sc.res])
+            held |= set(A_)
+            for i in f.insts():
+                if i.op == 'store' and strip_ptr_casts(f, i.ops[0]) in held:
+                    root, steps = access_path(P, f, i.ops[1])
+                    fl = fields_in_path(steps)
+                    if fl and fl[-1][0] == 'isa_l_descriptor':
+                        fld = fl[-1]; break
         inst = f'isa_l_common_init: dlsym -> {fld[1] if fld else "?"}'
         if fld is None:
-            r.undecided(inst, loc=sc.loc, msg='dlsym result is not stored into the descriptor in the same block')
+            r.undecided(inst, loc=sc.loc, msg='dlsym result does not reach the descriptor')
             continue
         tested = False
         for b in f.order:
@@ -287,6 +299,18 @@ def run(ctx):
                 init, step = L.recurrence(phi)
                 cands.append((phi, init, step))
         walking = [(p, i0, st) for p, i0, st in cands if st is not None and st == Poly.const(1) and i0 is not None and not isinstance(i0, tuple) and i0.is_zero()]
+        # the cursor may be kept as a row pointer / byte offset instead of a row number: it then starts at offset 0 and advances
+        # by one row (k elements, the bound of the column loop) per column of its kind
+        hb = [gd.bound for gd in L0.guards() if gd.block is L0.header]
+        for p_, i0, st in cands:
+            if st is None or i0 is None:
+                continue
+            i0p = i0[1] if isinstance(i0, tuple) else i0
+            cf, _rest = off.coeff_of(p_.res)
+            if cf is None or not i0p.is_zero():
+                continue
+            if any(cf * st == kb for kb in hb) and (p_, i0, st) not in walking:
+                walking.append((p_, i0, st))
         # the column index j itself (bounded by k in the header) is not a cursor of its own branch
         hg = {gd.iv for gd in L0.guards() if gd.block is L0.header}
         own = [w for w in walking if w[0].res not in hg]
